@@ -1,6 +1,6 @@
 (** C20 — correspondence cases: what the Go implementation returned. *)
 From Coq Require Import ZArith List Bool.
-From C33 Require Import Lib.Harness C20.Model.
+From C33 Require Import Lib.Harness C20.Model C20.Spec.
 Import ListNotations.
 Open Scope Z_scope.
 
@@ -9,32 +9,45 @@ Inductive case :=
     (* CompactToBig c, BigToCompact (CompactToBig c), CalcWork c *)
 | CEncode (n : Z) (impl_compact impl_back : Z)
     (* BigToCompact n, CompactToBig (BigToCompact n) *)
-| CWorkPair (c1 c2 : Z) (impl_w1 impl_w2 : Z).
+| CWorkPair (c1 c2 : Z) (impl_w1 impl_w2 : Z)
+| CEncPair (t1 t2 : Z) (impl_w1 impl_w2 : Z).
+    (* CalcWork (BigToCompact t1), CalcWork (BigToCompact t2) *)
 
 (** Spec side (the property text, run as an oracle on the implementation's
-    own outputs):
-    - recode is canonical: re-encoding its decoding changes nothing;
-    - precision: 0 <= n - back < 256^(max 0 (len-3)) * 256 for n >= 0;
-    - work antitone on positive targets. *)
+    own outputs; every clause is implied by a theorem of [Properties.v]):
+    - the recoded value is a uint32, decodes to the same integer, is a fixed point
+      of decode/encode, is 0 or has a non-zero exponent and a normalised mantissa,
+      and is 0 when the integer is 0            (C20_canonical_form, C20_decode_recode);
+    - precision: for 0 <= n that fits the format, decoding the encoding gives exactly
+      n with its [lost_bytes n] low bytes zeroed   (C20_precision, C20_truncated_shift);
+      negative n whose dropped bytes are zero round-trip exactly (C20_negative_exact_partial);
+      other negative n and byte lengths beyond the 8-bit exponent: correspondence only;
+    - work antitone on positive targets            (C20_work_antitone), also for
+      integer targets pushed through the encoder   (C20_work_antitone_encoded). *)
 Definition check_case (c : case) : verdict :=
   match c with
   | CDecode c b r w =>
       let m := (compact_to_big c =? b) && (big_to_compact b =? r)
                && (calc_work c =? w) in
-      let s := (compact_to_big r =? b) && (big_to_compact (compact_to_big r) =? r) in
+      let s := (0 <=? r) && (r <? 4294967296)
+               && (compact_to_big r =? b) && (big_to_compact (compact_to_big r) =? r)
+               && ((r =? 0) || ((16777216 <=? r) && (32768 <=? r mod 8388608)))
+               && (negb (b =? 0) || (r =? 0)) in
       mk_verdict m s
   | CEncode n cpt back =>
       let m := (big_to_compact n =? cpt) && (compact_to_big cpt =? back) in
-      let s := if (n <? 0) || (254 <? bytelen n) then true
-               (* the property speaks of non-negative integers; byte lengths that
-                  do not fit the 8-bit exponent are outside the format *)
-               else (0 <=? n - back) &&
-                    (n - back <? 256 ^ (Z.max 0 (bytelen n - 3)) * 256) in
+      let s := if n <? 0
+               then (if fits_format (- n) && (truncated_shift (- n) =? - n) then back =? n else true)
+               else (if fits_format n then back =? truncated_shift n else true) in
       mk_verdict m s
   | CWorkPair c1 c2 w1 w2 =>
       let m := (calc_work c1 =? w1) && (calc_work c2 =? w2) in
       let d1 := compact_to_big c1 in
       let d2 := compact_to_big c2 in
       let s := if (0 <? d1) && (d1 <=? d2) then w2 <=? w1 else true in
+      mk_verdict m s
+  | CEncPair t1 t2 w1 w2 =>
+      let m := (calc_work (big_to_compact t1) =? w1) && (calc_work (big_to_compact t2) =? w2) in
+      let s := if (0 <? t1) && (t1 <=? t2) && fits_format t2 then w2 <=? w1 else true in
       mk_verdict m s
   end.
